@@ -81,7 +81,7 @@ int io::stream::set_property(const char *pr, convertable *src)
 		}
 		return ret;
 	}
-	if (strcasecmp(pr, "idlen")) {
+	if (!strcasecmp(pr, "idlen")) {
 		if (_inputFile >= 0) {
 			return BadOperation;
 		}
